@@ -31,7 +31,7 @@ FLOORS = {"quick": {"final_calls": 5000, "partially_cleared": 2000, "returned_an
 def gen_case(rng, cfg, idx):
     b = B.Builder(rng)
     shape = B.rand_shape(rng, 2, 3, 1) or (2,)
-    leaves = [b.leaf(shape, lo=0.4, hi=1.6) for _ in range(rng.randint(1, 3))]
+    leaves = [b.leaf(shape, lo=0.4, hi=1.6, constant=True if (i and rng.random() < 0.25) else None) for i in range(rng.randint(1, 3))]
     shared = []
     for _ in range(rng.randint(2, 5)):
         src = rng.choice(leaves + shared)
@@ -155,7 +155,8 @@ def detection_defeated(L):
             continue
         for v in op.variables:
             live = [r() for r in v._ops if r() is not None]
-            if not any(o is op for o in live) and live:
+            # (the library tests the raw set `not var._ops`: a consumer that has since died still counts, its dead weak reference stays in the set)
+            if not any(o is op for o in live) and len(v._ops) > 0:
                 return True
             stack.append(v)
     return False
@@ -211,6 +212,16 @@ def run_case(case):
             o = sh.owner.get(st["tgt"])
             mutated |= {n for n, oo in sh.owner.items() if oo == o}
     events = [st["k"] + ("!" if i in it.raised else "") for i, st in enumerate(prog[rec:-1], start=rec)]
+    const_mut_after_clear = False
+    first_clear = next((i for i in range(rec, len(prog) - 1) if prog[i]["k"] in ("backward", "clear")), None)
+    if first_clear is not None:
+        for i in range(first_clear + 1, len(prog) - 1):
+            st = prog[i]
+            if st["k"] in ("setitem", "aug", "uout", "setshape") and i not in it.raised:
+                o = sh.owner.get(st["tgt"])
+                fam = {n for n, oo in sh.owner.items() if oo == o}
+                if any(n in up and mgrun.is_tensor(it.env.get(n)) and it.env[n].constant for n in fam):
+                    const_mut_after_clear = True
     # mechanism probe (for classification only): is there an operation in L's recorded graph one of whose inputs no longer lists
     # it as a consumer although that input's consumer set is non-empty again (cleared, then refilled by re-use)?
     defeated = detection_defeated(it.env[L])
@@ -268,6 +279,9 @@ def run_case(case):
                              # the refusal and the retry. (Cleared parts of the graph are then silently skipped, so missing / partial
                              # gradients occur even when no value was changed in place.)
                              "defeated": bool(defeated and not cyclic and (not cnt.get("returned_on_retry") or cnt.get("reused_before_retry"))),
+                             # second known mechanism: a CONSTANT tensor of L's recorded graph was updated in place after another graph's
+                             # backward()/clear_graph() had emptied its consumer list (constants are exempt from the cleared-graph test)
+                             "const_mutated_after_clear": bool(const_mut_after_clear),
                              "msg": f"final backward returned normally but {n}.grad = {None if g2 is None else g2.ravel()[:4]} while the recorded "
                                     f"computation gives {None if g is None else g.ravel()[:4]}; events {events}"})
                 break
@@ -280,4 +294,6 @@ def classify(v, case):
     m = v.get("mech") or v["monitor"]
     if m.startswith("silent-wrong-gradient") and v.get("defeated"):
         return "reuse-refills-consumers"
+    if m.startswith("silent-wrong-gradient") and v.get("const_mutated_after_clear"):
+        return "inplace-on-shared-constant-after-clear"
     return m
